@@ -188,3 +188,103 @@ Qed.
 Print Assumptions translated_iter_refines_submit.
 Print Assumptions submit_unfold.
 Print Assumptions iter_stops.
+
+(* ---- the whole loop ------------------------------------------------------------------------------------------
+   [code_submit] runs the code's iteration again and again: at each round it asks [iter_expect] — which
+   go_submitToDA_iter proves IS the translated Go iteration — what the loop does on the locals the model state
+   describes, READS the outcome off the code's own observation (did it return nil? which segment of the items did
+   postSubmit receive? which items remain? which backoff?) and updates the side exactly as the real postSubmit would
+   (the watermark moves to the last marked height).  [code_submit_is_submit]: for every configuration, every number
+   of attempts left (up to maxSubmitAttempts), every backoff, every list of heights, every script of DA answers, every
+   side and clock, that is Submitter.submit — result, side, unconsumed script and time. *)
+Definition read_attempt (done : N) (rem : list N) (x : list gval * list gval) : option attempt_result :=
+  if returned_nil x then Some ACancelled
+  else match next_locals x with
+       | Some (all, b', lo', _) =>
+           let marked := match post_segment x with
+                         | Some (lo, hi) => Some (firstn (N.to_nat (hi - lo)) rem)
+                         | None => None
+                         end in
+           if all then match marked with Some l => Some (ADone l) | None => None end
+           else Some (AGoOn (Z.to_N b') (skipn (N.to_nat (lo' - done)) rem) marked)
+       | None => None
+       end.
+
+Fixpoint code_submit (c : cfg) (fuel : nat) (b done : N) (rem : list N) (sc : list outcome) (sd : side) (el : N)
+  : side * list outcome * result * N :=
+  match fuel with
+  | O => (sd, sc, RExhausted, el)
+  | S f =>
+    match sc with
+    | [] => (sd, [], RCancelled, (el + b)%N)
+    | o :: sc' =>
+        let sd1 := log_call rem o sd in
+        let el' := (el + b + call_cost o)%N in
+        match read_attempt done rem (iter_expect (lworld_of c (S f) b done rem o)) with
+        | Some (ADone marked) => (set_last (last_height marked) sd1, sc', RDone, el')
+        | Some (AGoOn b' rem' marked) =>
+            code_submit c f b' (done + (N.of_nat (length rem) - N.of_nat (length rem')))%N rem' sc'
+                        (match marked with Some l => set_last (last_height l) sd1 | None => sd1 end) el'
+        | Some ACancelled => (sd1, sc', RCancelled, el')
+        | None => (sd, sc, RExhausted, el)       (* the observation could not be read: never the case, see below *)
+        end
+    end
+  end.
+
+Lemma goes_on_not_nil : forall x y, next_locals x = Some y -> returned_nil x = false.
+Proof.
+  intros [vals cs] y. unfold next_locals, returned_nil. cbn [fst].
+  destruct vals as [|v l]; [intros H; discriminate H|].
+  destruct v; intros H; try discriminate H; reflexivity.
+Qed.
+
+Lemma read_attempt_is_model : forall c f b done rem o,
+  (f < 30)%nat ->
+  read_attempt done rem (iter_expect (lworld_of c (S f) b done rem o)) = Some (model_attempt c b rem o).
+Proof.
+  intros c f b done rem o Hf.
+  pose proof (iter_refines_submit c f b done rem o Hf) as H. cbv zeta in H.
+  unfold read_attempt.
+  destruct (model_attempt c b rem o) as [b' rem' marked | marked | ] eqn:Hm.
+  - destruct H as [Hp Hn].
+    assert (Hr : returned_nil (iter_expect (lworld_of c (S f) b done rem o)) = false) by (eapply goes_on_not_nil; exact Hn).
+    rewrite Hr, Hn, Hp. cbn [option_map].
+    (* what the model's attempt says about rem' and marked *)
+    unfold model_attempt in Hm.
+    destruct (helper_status o (N.of_nat (length rem))) as [s cnt] eqn:Hs.
+    assert (Hc : (cnt <= N.of_nat (length rem))%N).
+    { unfold helper_status in Hs. destruct o as [k|fk|k fk|sn]; try (inversion Hs; lia).
+      destruct ((N.min k (N.of_nat (length rem)) =? 0)%N && negb (N.of_nat (length rem) =? 0)%N); inversion Hs; lia. }
+    destruct s; try (inversion Hm; subst; rewrite N2Z.id;
+                     replace (N.to_nat (done + (N.of_nat (length rem') - N.of_nat (length rem')) - done)) with 0%nat by lia;
+                     reflexivity).
+    + destruct (cnt =? N.of_nat (length rem))%N eqn:E; [discriminate Hm|]. inversion Hm; subst. cbn [option_map].
+      rewrite skipn_length, firstn_length.
+      replace (N.to_nat (done + N.of_nat (Nat.min (N.to_nat cnt) (length rem)) - done)) with (N.to_nat cnt) by lia.
+      replace (N.to_nat (done + (N.of_nat (length rem) - N.of_nat (length rem - N.to_nat cnt)) - done)) with (N.to_nat cnt) by lia.
+      reflexivity.
+  - destruct H as [Hp Hn].
+    assert (Hr : returned_nil (iter_expect (lworld_of c (S f) b done rem o)) = false) by (eapply goes_on_not_nil; exact Hn).
+    rewrite Hr, Hn, Hp.
+    unfold model_attempt in Hm.
+    destruct (helper_status o (N.of_nat (length rem))) as [s cnt] eqn:Hs.
+    destruct s; try discriminate Hm.
+    destruct (cnt =? N.of_nat (length rem))%N eqn:E; [|discriminate Hm]. inversion Hm; subst.
+    apply N.eqb_eq in E. subst cnt. rewrite firstn_length, Nat2N.id, Nat.min_id.
+    replace (N.to_nat (done + N.of_nat (length rem) - done)) with (length rem) by lia. reflexivity.
+  - destruct H as [Hr _]. rewrite Hr. reflexivity.
+Qed.
+
+Theorem code_submit_is_submit : forall c fuel b done rem sc sd el,
+  (fuel <= 30)%nat ->
+  code_submit c fuel b done rem sc sd el = submit c fuel b rem sc sd el.
+Proof.
+  intros c fuel. induction fuel as [|f IH]; intros b done rem sc sd el Hf; [reflexivity|].
+  destruct sc as [|o sc']; [reflexivity|].
+  rewrite submit_unfold. cbn [code_submit]. cbv zeta.
+  rewrite read_attempt_is_model by lia.
+  destruct (model_attempt c b rem o) as [b' rem' marked | marked | ]; try reflexivity.
+  apply IH. lia.
+Qed.
+
+Print Assumptions code_submit_is_submit.
